@@ -9,6 +9,7 @@ package main
 
 import (
 	"fmt"
+	"go/token"
 	"strings"
 
 	"golang.org/x/tools/go/ssa"
@@ -70,6 +71,110 @@ func ruleJSTotal(c *Ctx) {
 			c.Bad(key, pos, strings.Join(dedup(bad), "; ")+": a schema value that was parsed or generated cannot be serialised")
 		} else {
 			c.OK(key, pos, fmt.Sprintf("%d error returns, each passing on (or wrapping) an error of a JSON encoder call", n))
+		}
+	}
+}
+
+// JS-ACCEPT (C14): the hand-written parser refuses of its own accord only on the kind of the next JSON
+// token. Whether a document is well-formed JSON is the JSON library's to say (its errors are passed on,
+// ER-CHECK); what the schema parser adds is the dispatch on string / array / object. Any further refusal — a
+// check of names, of attribute values — has to be shown to exclude nothing the specification allows, which
+// this rule does not attempt: it is undecided.
+func ruleJSAccept(c *Ctx) {
+	c.Rule("JS-ACCEPT", "parsing a schema refuses of its own accord only on the kind of the next token (string, array, object, anything else): no valid schema document is turned away by a check of the parser's own", 1)
+	P := c.P
+	schemaT := P.NamedType(P.Avro, "Schema")
+	var root *ssa.Function
+	if schemaT != nil {
+		root = P.Method(schemaT, "UnmarshalJSONFrom")
+	}
+	if !c.Anchor(root != nil && root.Blocks != nil, "(*avro.Schema).UnmarshalJSONFrom") {
+		return
+	}
+	scope := []*ssa.Function{root}
+	seen := map[*ssa.Function]bool{root: true}
+	for i := 0; i < len(scope) && i < 32; i++ {
+		for _, cs := range callsIn(scope[i]) {
+			g := cs.Static
+			if g == nil || !P.isModuleFunc(g) || g.Blocks == nil || seen[g] {
+				continue
+			}
+			seen[g] = true
+			scope = append(scope, g)
+		}
+	}
+	var peekOnly func(v ssa.Value, d int) bool
+	peekOnly = func(v ssa.Value, d int) bool {
+		if d > 8 {
+			return false
+		}
+		switch x := v.(type) {
+		case *ssa.Const:
+			return true
+		case *ssa.Convert:
+			return peekOnly(x.X, d+1)
+		case *ssa.ChangeType:
+			return peekOnly(x.X, d+1)
+		case *ssa.UnOp:
+			if x.Op == token.NOT {
+				return peekOnly(x.X, d+1)
+			}
+			return false
+		case *ssa.BinOp:
+			return peekOnly(x.X, d+1) && peekOnly(x.Y, d+1)
+		case *ssa.Call:
+			g := x.Call.StaticCallee()
+			return g != nil && g.Name() == "PeekKind" && len(x.Call.Args) == 1 && strings.HasSuffix(typeKey(x.Call.Args[0].Type()), "jsontext.Decoder")
+		}
+		return false
+	}
+	for _, fn := range scope {
+		key := fnKey(fn) + "/refuses-on-token-kind-only"
+		pos := P.pos(fn.Pos())
+		var unk []string
+		n := 0
+		for _, r := range returnsOf(fn) {
+			ev := errOperand(r)
+			if ev == nil || isNilConst(ev) {
+				continue
+			}
+			srcs := []ssa.Value{ev}
+			var blocks []*ssa.BasicBlock
+			if phi, ok := ev.(*ssa.Phi); ok {
+				srcs = nil
+				for i, ed := range phi.Edges {
+					srcs = append(srcs, ed)
+					blocks = append(blocks, phi.Block().Preds[i])
+				}
+			}
+			for i, s := range srcs {
+				if isNilConst(s) || !ownError(s) {
+					continue
+				}
+				n++
+				blk := r.Block()
+				if blocks != nil {
+					blk = blocks[i]
+				} else if in, ok := stripChange(s).(ssa.Instruction); ok && in.Block() != nil {
+					blk = in.Block()
+				}
+				for _, a := range guardAtoms(blk) {
+					if a.dead() {
+						continue
+					}
+					if !peekOnly(a.cond, 0) {
+						unk = append(unk, fmt.Sprintf("%s refuses at %s on a test that is not of the kind of the next token: it is not shown that only documents the specification excludes are turned away", fn.Name(), P.pos(a.pos)))
+					}
+				}
+			}
+		}
+		switch {
+		case len(unk) > 0:
+			c.Unk(key, pos, strings.Join(dedup(unk), "; "))
+		case n == 0:
+			c.OKTrivial(key, pos, "makes up no error of its own")
+		default:
+			c.OK(key, pos, fmt.Sprintf("%d error(s) of its own, each decided by the kind of the next token alone", n))
 		}
 	}
 }
